@@ -67,9 +67,13 @@ func cvGenType(depth int, name string) *cvt {
 	kinds := "nifbsraAloO"
 	max := len(kinds) - 1
 	if depth == 0 {
-		max = 7
+		max = 8 // leaves, plus the option of an int as the one composite leaf (optional object fields, lists of options)
 	}
-	k := kinds[herrors.VerifNdIntRange(name+"_k", 0, max)]
+	ki := herrors.VerifNdIntRange(name+"_k", 0, max)
+	if depth == 0 && ki == 8 {
+		return &cvt{k: 'O', kids: []*cvt{{k: 'i'}}}
+	}
+	k := kinds[ki]
 	t := &cvt{k: k}
 	switch k {
 	case 'l', 'O':
